@@ -50,6 +50,11 @@ pub struct Tcp2Cfg {
     /// buffers, an out-of-order island in B's reassembler); 2: the first one was closed
     /// gracefully by A (A sits in TIME-WAIT, B went LAST-ACK -> CLOSED, both saw a FIN)
     pub prefix: u8,
+    /// simultaneous open: B does not listen but connects to A's port pair as well
+    pub simul_open: bool,
+    /// DeviceCapabilities::max_burst_size of both devices (the stack then clamps the window it
+    /// advertises to that many segments)
+    pub burst: Option<usize>,
 }
 
 impl Tcp2Cfg {
@@ -75,6 +80,8 @@ impl Tcp2Cfg {
             eth: false,
             lazy_reader: false,
             prefix: 0,
+            simul_open: false,
+            burst: None,
         }
     }
 }
@@ -179,6 +186,7 @@ pub fn pattern(side: usize, n: usize) -> Vec<u8> {
 impl Tcp2 {
     fn make_end(cfg: &Tcp2Cfg, side: usize) -> End {
         let mut dev = SimDevice::new(if cfg.eth { Medium::Ethernet } else { Medium::Ip }, if cfg.eth { cfg.mtu + 14 } else { cfg.mtu });
+        dev.max_burst = cfg.burst;
         let mut c = Config::new(if cfg.eth {
             HardwareAddress::Ethernet(smoltcp::wire::EthernetAddress([0x02, 0, 0, 0, 0, 1 + side as u8]))
         } else {
@@ -565,6 +573,7 @@ impl Tcp2 {
             only_frame_of_poll,
             keep_alive: self.cfg.keep_alive_ms.is_some(),
             expect_isn: self.cfg.isn.map(|i| i[side]),
+            window_clamped_by_device: self.cfg.burst.is_some(),
         };
         let v = self.mon[side].check_emit(f, &ctx);
         self.pending.extend(v);
@@ -629,8 +638,15 @@ impl Harness for Tcp2 {
         if cfg.prefix != 0 {
             t.first_connection(cfg.prefix);
         }
-        // B listens, A connects
-        t.ends[1].sock().listen(PORT_B).expect("listen");
+        // B listens (or, simultaneous open, connects as well), A connects
+        if cfg.simul_open {
+            let remote = t.ends[0].addr;
+            let e = &mut t.ends[1];
+            let cx = e.iface.context();
+            e.sockets.get_mut::<tcp::Socket>(e.h).connect(cx, (remote, PORT_A), PORT_B).expect("connect");
+        } else {
+            t.ends[1].sock().listen(PORT_B).expect("listen");
+        }
         let remote = t.ends[1].addr;
         {
             let e = &mut t.ends[0];
@@ -868,6 +884,9 @@ pub fn configs(tier: Tier) -> Vec<(Tcp2Cfg, u32)> {
     let tiny = Tcp2Cfg { rx: [8, 8], tx: [16, 16], len: [20, 9], mtu: 80, ..b("rx8-bidir") };
     // the explored connection re-uses sockets that have carried a connection before
     let reuse1 = Tcp2Cfg { prefix: 1, len: [60, 20], ..b("reuse-after-abort") };
+    let simul = Tcp2Cfg { simul_open: true, len: [60, 20], ..b("simultaneous-open") };
+    // burst-limited devices: the advertised window is clamped while the real one is larger
+    let burst = Tcp2Cfg { burst: Some(2), rx: [2048, 2048], tx: [2048, 2048], mtu: 140, len: [400, 100], ..b("burst2-rx2048") };
     let reuse2 = Tcp2Cfg { prefix: 2, len: [60, 20], ..b("reuse-after-close") };
     // sweep of stream lengths against a 24-byte transmit ring and a 10-byte peer window: for
     // some lengths the final unsent chunk straddles the end of the ring storage at close()
@@ -881,6 +900,8 @@ pub fn configs(tier: Tier) -> Vec<(Tcp2Cfg, u32)> {
             v.push((lazy, 3));
             v.push((reuse1, 2));
             v.push((reuse2, 2));
+            v.push((simul, 2));
+            v.push((burst, 2));
             v.push((eth4, 2));
             v.push((eth6s, 2));
             v.push((small, 4));
@@ -903,6 +924,8 @@ pub fn configs(tier: Tier) -> Vec<(Tcp2Cfg, u32)> {
             v.push((lazy, 4));
             v.push((reuse1, 3));
             v.push((reuse2, 3));
+            v.push((simul, 3));
+            v.push((burst, 3));
             v.push((eth4, 3));
             v.push((eth6s, 3));
             v.push((small, 5));
